@@ -8,7 +8,10 @@ that is the open finding C07-a64-dynalign. -/
 structure A64WF (f : Frame) : Prop where
   arch : f.arch = .a64
   noDA : f.hasDA = false
-  sa : f.saRegId = 31
+  /-- `sp`, or the frame pointer when it is preserved (what `update_func_frame` selects; fixes/C07-7) -/
+  sa : f.saRegId = 31 ∨ (f.saRegId = 29 ∧ f.hasFP = true)
+  saOffSa : f.saOffSa = f.ppSize
+  fpFirst : f.hasFP = true → ∃ it rest, a64Items f = it :: rest ∧ it.2 = true
   align : f.finalAlign = 16 ∧ f.natAlign = 16
   cleanup : f.calleeCleanup = 0
   localFits : f.localEnd ≤ f.ppOff
@@ -104,6 +107,7 @@ theorem a64_saves (f : Frame) (wf : A64WF f) (s0 : St) (sp0 : Nat) (hsp : s0.gp 
     (hret0 : s0.ret = none) (hal : sp0 % 16 = 0) (hroom : f.ppSize ≤ sp0) :
     ∃ tS, run .a64 (a64Stores f) s0 = some tS ∧ tS.gp 31 = sp0 - f.ppSize
       ∧ (∀ r, (r ≠ 29 ∨ f.hasFP = false) → r ≠ 31 → tS.gp r = s0.gp r) ∧ tS.x = s0.x ∧ tS.ret = none
+      ∧ (f.hasFP = true → tS.gp 29 = sp0 - f.ppSize)
       ∧ (∀ x, x < sp0 - f.ppSize ∨ sp0 ≤ x → tS.mem x = s0.mem x)
       ∧ ∀ t2 : St, t2.gp 31 = sp0 - f.ppSize → t2.ret = none →
           (∀ x, sp0 - f.ppSize ≤ x → x < sp0 → t2.mem x = tS.mem x) →
@@ -119,7 +123,11 @@ theorem a64_saves (f : Frame) (wf : A64WF f) (s0 : St) (sp0 : Nat) (hsp : s0.gp 
   cases hitems : a64Items f with
   | nil =>
     have hz := wf.empty hitems
-    refine ⟨s0, ?_, by rw [hsp, hz]; rfl, fun _ _ _ => rfl, rfl, hret0, fun _ _ => rfl, ?_⟩
+    have hnfp : f.hasFP = true → False := by
+      intro hfp
+      obtain ⟨it, rest, h, _⟩ := wf.fpFirst hfp
+      rw [hitems] at h; exact absurd h (by simp)
+    refine ⟨s0, ?_, by rw [hsp, hz]; rfl, fun _ _ _ => rfl, rfl, hret0, fun h => absurd h (by intro h; exact hnfp h), fun _ _ => rfl, ?_⟩
     · unfold a64Stores; rw [hitems]; rfl
     · intro t2 h2sp h2ret _
       refine ⟨t2, ?_, by rw [h2sp, hz]; rfl, rfl, h2ret, by simp, fun _ _ _ _ => rfl⟩
@@ -156,7 +164,8 @@ theorem a64_saves (f : Frame) (wf : A64WF f) (s0 : St) (sp0 : Nat) (hsp : s0.gp 
         hQ]
     have hmov : ∃ sB, run .a64 (if mv0 then [Instr.mov 29 31] else []) sA = some sB ∧ sB.mem = sA.mem ∧ sB.x = s0.x
         ∧ sB.ret = none ∧ sB.gp 31 = Q ∧ (∀ r, (r ≠ 29 ∨ mv0 = false) → r ≠ 31 → sB.gp r = s0.gp r)
-        ∧ (∀ g r, ((g, r) ≠ (0, 29) ∨ mv0 = false) → (g, r) ≠ (0, 31) → sB.reg g r = s0.reg g r) := by
+        ∧ (∀ g r, ((g, r) ≠ (0, 29) ∨ mv0 = false) → (g, r) ≠ (0, 31) → sB.reg g r = s0.reg g r)
+        ∧ (mv0 = true → sB.gp 29 = Q) := by
       have hA31 : sA.gp 31 = Q := by simp [sA]
       have hAgp : ∀ r, r ≠ 31 → sA.gp r = s0.gp r := fun r hr => by simp [sA, hr]
       have hAreg : ∀ g r, (g, r) ≠ (0, 31) → sA.reg g r = s0.reg g r := by
@@ -165,9 +174,11 @@ theorem a64_saves (f : Frame) (wf : A64WF f) (s0 : St) (sp0 : Nat) (hsp : s0.gp 
         rw [reg_setGp, if_neg (by intro ⟨h1, h2⟩; exact hgr (by rw [h1, h2]))]; rfl
       cases mv0 with
       | false =>
-        exact ⟨sA, by simp [run], rfl, rfl, hret0, hA31, fun r _ hr => hAgp r hr, fun g r _ hgr => hAreg g r hgr⟩
+        exact ⟨sA, by simp [run], rfl, rfl, hret0, hA31, fun r _ hr => hAgp r hr, fun g r _ hgr => hAreg g r hgr,
+          fun h => absurd h (by simp)⟩
       | true =>
-        refine ⟨sA.setGp 29 (sA.gp 31), run_one _ _ _ _ (step_mov _ 29 31 sA hret0), rfl, rfl, hret0, ?_, ?_, ?_⟩
+        refine ⟨sA.setGp 29 (sA.gp 31), run_one _ _ _ _ (step_mov _ 29 31 sA hret0), rfl, rfl, hret0, ?_, ?_, ?_,
+          fun _ => by simp only [setGp_gp, if_true]; exact hA31⟩
         · simp only [setGp_gp]; rw [if_neg (by omega)]; exact hA31
         · intro r hr hr31
           rcases hr with hr | hr
@@ -177,7 +188,7 @@ theorem a64_saves (f : Frame) (wf : A64WF f) (s0 : St) (sp0 : Nat) (hsp : s0.gp 
           rcases hgr with hgr | hgr
           · rw [reg_setGp, if_neg (by intro ⟨h1, h2⟩; exact hgr (by rw [h1, h2]))]; exact hAreg g r hgr31
           · exact absurd hgr (by simp)
-    obtain ⟨sB, rmov, sBmem, sBx, sBret, sBsp, sBgp, sBreg⟩ := hmov
+    obtain ⟨sB, rmov, sBmem, sBx, sBret, sBsp, sBgp, sBreg, sB29⟩ := hmov
     have hregrest : ∀ g r, (g, r) ∈ keysOf rest → sB.reg g r = s0.reg g r := by
       intro g r hgr
       apply sBreg
@@ -185,10 +196,19 @@ theorem a64_saves (f : Frame) (wf : A64WF f) (s0 : St) (sp0 : Nat) (hsp : s0.gp 
         | false => exact Or.inr rfl
         | true => left; intro h; rw [h] at hgr; exact hmv0 hm hgr
       · intro h; rw [h] at hgr; exact h31r hgr
-    obtain ⟨tS, rrest, tSsp, tSgp, tSx, tSret, tSmem, hload⟩ :=
+    obtain ⟨tS, rrest, tSsp, tSgp, tSx, tSret, tS29, tSmem, hload⟩ :=
       a64_bracket Q hQal rest (pBytes p0) sB hasc hndr h31r hmvr
         (fun it hit => by have := hbound it hit; omega) sBret sBsp
-    refine ⟨tS, ?_, tSsp, ?_, by rw [tSx, sBx], tSret, ?_, ?_⟩
+    have hfp29 : f.hasFP = true → tS.gp 29 = Q := by
+      intro hfp
+      obtain ⟨it, rest', h, hm⟩ := wf.fpFirst hfp
+      rw [hitems] at h
+      injection h with h1 _
+      have hm0 : mv0 = true := by rw [← h1] at hm; exact hm
+      rcases tS29 with h | h
+      · rw [h]; exact sB29 hm0
+      · exact h
+    refine ⟨tS, ?_, tSsp, ?_, by rw [tSx, sBx], tSret, hfp29, ?_, ?_⟩
     · rw [stores_cons f (p0, mv0) rest hitems hoffne h0 htne, run_append]
       show (run .a64 (stPre _ p0 :: (if mv0 then [Instr.mov 29 31] else [])) s0).bind _ = _
       simp only [run, hstA, Option.bind_some]
@@ -292,7 +312,7 @@ theorem a64_main (f : Frame) (wf : A64WF f) (pro epi : List Instr)
   have r0 : run .a64 (a64Bti f) s0 = some s0 := by
     apply run_nops _ _ _ _ hret0
     intro i hi; unfold a64Bti at hi; split at hi <;> simp at hi; exact ⟨_, hi⟩
-  obtain ⟨tS, rS, tSsp, tSgp, tSx, tSret, tSmem, hloads⟩ := a64_saves f wf s0 sp0 hsp0 hret0 hent (by omega)
+  obtain ⟨tS, rS, tSsp, tSgp, tSx, tSret, tSfp, tSmem, hloads⟩ := a64_saves f wf s0 sp0 hsp0 hret0 hent (by omega)
   generalize hQ : sp0 - f.ppSize = Q at *
   obtain ⟨s1, r1, s1sp, s1gp, s1x, s1mem, s1ret⟩ := run_a64_sub f.stackAdj tS tSret (by rw [tSsp]; omega) subs hsubs
   rw [tSsp] at s1sp
@@ -300,7 +320,7 @@ theorem a64_main (f : Frame) (wf : A64WF f) (pro epi : List Instr)
   refine ⟨s1, ?_, s1ret, ?_, ?_, ?_⟩
   · rw [run_append, r0, Option.bind_some, run_append, rS, Option.bind_some]; exact r1
   · unfold bodyEntryOk
-    simp only [harch, Arch.spId, hsp0, saBase, Arch.retSize, Arch.lrId, Nat.add_zero, wf.sa, beq_self_eq_true, if_true,
+    simp only [harch, Arch.spId, hsp0, saBase, Arch.retSize, Arch.lrId, Nat.add_zero,
       Bool.and_eq_true, Bool.or_eq_true, Bool.not_eq_true', beq_iff_eq]
     refine ⟨⟨?_, ?_⟩, Or.inr ?_⟩
     · right
@@ -310,7 +330,9 @@ theorem a64_main (f : Frame) (wf : A64WF f) (pro epi : List Instr)
         have : sp0 - f.ppSize = 16 * (sp0 / 16 - f.ppSize / 16) := by omega
         rw [this, Nat.mul_mod_right]
       omega
-    · rw [s1sp, hsaoff]; omega
+    · rcases wf.sa with hsa | ⟨hsa, hfp⟩
+      · rw [if_pos hsa, beq_iff_eq, s1sp, hsaoff]; omega
+      · rw [if_neg (by omega), beq_iff_eq, hsa, s1gp 29 (by omega), tSfp hfp, wf.saOffSa]; omega
     · rw [s1sp, hsaoff]; omega
   · intro x hx
     rw [s1mem, tSmem x (Or.inr hx)]
